@@ -195,6 +195,7 @@ _p.update({
                                    "attr_of(arg_attributes, \\'default-value\\') == (prop.default_value if prop.default_value else None) and "
                                    "attr_of(arg_attributes, \\'transfer-ownership\\') == (prop.transfer if prop.transfer else None)')",
 })
+_p['balanced'] = 'wf(self) and len(self._tag_stack) == old(len(self._tag_stack))'
 contract(G + '_write_property', params={'self': 'GIRWriter', 'prop': 'Property'},
          props=('C03', 'C12', 'C07'), requires=['wf(self)'], modifies=WRITER_MODS,
          raises={'Exception': 'True'}, ensures=_p)
@@ -529,3 +530,4 @@ contract(P + '_parse_field', params={'self': 'GIRParser', 'node': 'Element', 'pa
                          ('C07.roundtrip.field.typed_or_anonymous',
                           "(result.type is not None) == (result.anonymous_node is None)")]),
          note='ghost field: the field whose attributes the writer emitted (C07.write.field.* of _write_field)')
+
